@@ -64,7 +64,7 @@ package bal_gslb
 // subClusterBalance is proved.
 
 //@ func (*BalanceGslb).Reload
-//@   props C02,C03
+//@   props C02,C03,C09
 //@   requires bal != nil
 //@   modifies *
 //@   assume[the_merged_list_holds_sub_clusters_with_bounded_weights] at "if sub.weight > 0" :: wfSubs(subListNew)
